@@ -516,6 +516,7 @@ class FixedWidthBinning(BinningBase):
 
         The quotient is only a first guess, it may be off by one for inexact widths.
         """
+        value = float(value)  # (Narrow numpy floats would make the quotient narrow too)
         index = int(np.floor((value - self._shift) / self._bin_width))
         if self._grid_edge(index) > value:
             index -= 1
